@@ -232,7 +232,9 @@ class ModelTrainer:
                 chunks_config.data_config.preprocessing.max_height,
                 chunks_config.data_config.preprocessing.max_width,
             )
-            self.crop_hw = chunks_config.data_config.preprocessing.crop_hw[0]
+            # `crop_hw` is only set for centered-instance models (else it stays `None`)
+            if chunks_config.data_config.preprocessing.crop_hw is not None:
+                self.crop_hw = chunks_config.data_config.preprocessing.crop_hw[0]
 
         else:
             train_labels = sio.load_slp(self.config.data_config.train_labels_path)
